@@ -296,3 +296,39 @@ fn session_td_two_roots_share_a_dependency() {
   });
   ::std::mem::forget(pie);
 }
+
+/// C08 through sessions: P0 reads Cell0 and, depending on it, either requires P1 (which reads Cell1) or not; then reads Cell2.
+/// After Cell0 flips so that P0 no longer requires P1, a change to Cell1 must not re-execute anything when P0 is built; a change
+/// to Cell2 (still used) must re-execute P0; flipping Cell0 back must bring the require back.
+//@h props=C08,C01:t,C02:t tier=quick unwind=14 stubs=sort,boxslice timeout=1500 fieldsens=1024
+fn session_td_dropped_dependency_cannot_trigger() {
+  prog_dynamic();
+  let mut pie = fresh();
+  let mut cells = INIT;
+  td_build(&mut pie, 0, &mut cells, false, true);
+  assert!(exec_count(0) == 1 && exec_count(1) == 1, "harness: with Cell0 = 4 the task requires P1");
+  set_cell(&mut pie, 0, Some(9)); cells[0] = Some(9);
+  td_build(&mut pie, 0, &mut cells, false, true);
+  assert!(exec_count(0) == 1 && exec_count(1) == 0, "C08 after the flip P0 re-executes and no longer requires P1");
+  split(3, |k| {
+    match k {
+      0 => {
+        set_cell(&mut pie, 1, Some(5)); cells[1] = Some(5);
+        td_build(&mut pie, 0, &mut cells, false, true);
+        assert!(exec_total() == 0, "C08 a dependency the task no longer declares (require of P1, and through it Cell1) cannot cause re-execution");
+      }
+      1 => {
+        set_cell(&mut pie, 2, Some(3)); cells[2] = Some(3);
+        td_build(&mut pie, 0, &mut cells, false, true);
+        assert!(exec_count(0) == 1 && exec_count(1) == 0, "C08 a dependency declared by the latest execution (Cell2) does cause re-execution");
+      }
+      _ => {
+        set_cell(&mut pie, 1, Some(5)); cells[1] = Some(5);
+        set_cell(&mut pie, 0, Some(4)); cells[0] = Some(4);
+        td_build(&mut pie, 0, &mut cells, false, true);
+        assert!(exec_count(0) == 1 && exec_count(1) == 1, "C08 flipping back brings the require back; P1 is re-validated against the changed Cell1");
+      }
+    }
+  });
+  ::std::mem::forget(pie);
+}
